@@ -149,3 +149,20 @@ def need_some(items, what):
 
 def returns_bool(f, val):
     return f.g.return_nodes(lambda r: const_val(r.get("val")) == (1 if val else 0))
+
+
+def straight_after(g, bid, label):
+    """graph nodes executed right after taking edge `label` out of block bid, up to (not including) the next branching point"""
+    out = []
+    start = [y for (y, lab) in g.succ.get(tnode(g, bid), ()) if lab == label]
+    seen = set()
+    while start:
+        x = start.pop()
+        if x in seen:
+            continue
+        seen.add(x)
+        out.append(x)
+        nx = g.succ.get(x, ())
+        if len(nx) == 1:
+            start.append(nx[0][0])
+    return out
